@@ -249,3 +249,24 @@ canary('c18-propagate-not-awaited', 'C18', PROCF, """        if let Err(e) = pro
 """, """        let _unawaited = propagate_exit_signals(&handle_clone, &registry, exit_reason);
 """, 'DOM:')
 canary('c18-early-return-skips-remove', 'C18', PROCF, "        process.terminate().await;\n", "        process.terminate().await;\n        if pid.id == 424242 { return; }\n", 'PAIR:')
+
+# ---- C19 ----
+canary('c19-monitor-exit-to-from', 'C19', NODE, """                    && let OwnedTerm::Reference(ref_val) = reference
+                    && let Some(handle) = registry.get(&to).await""", """                    && let OwnedTerm::Reference(ref_val) = reference
+                    && let Some(handle) = registry.get(&from).await""", 'route_message:MonitorPExit')
+canary('c19-decode-breaks', 'C19', NODE, "                            edp_client::Error::Decode(_)\n                                | edp_client::Error::ContextualDecode(_)", "                            edp_client::Error::ContextualDecode(_)", 'Decode->break')
+canary('c19-route-error-breaks', 'C19', NODE, """                            tracing::error!("Failed to route message: {}", e);""", """                            tracing::error!("Failed to route message: {}", e);
+                            break;""", 'exit-on-ok-arm')
+canary('c19-exit-reason-lost', 'C19', NODE, "handle.send(Message::Exit { from, reason }).await?;", "handle.send(Message::Exit { from, reason: OwnedTerm::Nil }).await?; let _ = reason;", 'route_message:Exit')
+canary('c19-remove-in-loop', 'C19', NODE, """                        tracing::error!("Error receiving message from {}: {}", remote_node, e);
+                        break;""", """                        tracing::error!("Error receiving message from {}: {}", remote_node, e);
+                        if remote_node.is_empty() { return; }
+                        break;""", 'remove-skipped')
+canary('c19-io-continues', 'C19', NODE, "                                | edp_client::Error::Protocol(_)\n", "                                | edp_client::Error::Protocol(_)\n                                | edp_client::Error::Io(_)\n", 'Io->continue')
+canary('c19-regsend-by-pid', 'C19', NODE, """                    && let Some(pid) = registry.whereis(&name).await
+                    && let Some(handle) = registry.get(&pid).await
+                {
+                    handle.send(Message::Regular { from: None, body }).await?;""", """                    && let Some(pid) = registry.whereis(&name).await
+                    && let Some(handle) = registry.get(&pid).await
+                {
+                    handle.send(Message::Regular { from: None, body: OwnedTerm::Atom(name.clone()) }).await?; let _ = body;""", 'route_message:RegSend')
